@@ -7,6 +7,7 @@ C04.3b condition-driven loops write a dependency of their exit condition on ever
 C04.4  diagnostics are built in one place from one file value
 """
 import collections
+import os
 import re
 from entry import reachable
 from facts import walk, strip_block, is_panic_macro_node, WASM
@@ -76,7 +77,7 @@ def diverging_sites(F, fns):
                     if ln == c.line and k == kinds[-1]:
                         msg = m
                         break
-                yield dict(kind=kinds[-1], msg=msg, ctx=owner_of(F, f), fn=f, file=c.file, line=c.line)
+                yield dict(kind=kinds[-1], msg="", info=msg, ctx=owner_of(F, f), fn=f, file=c.file, line=c.line)
             elif UNWRAPS.match(p) and not c.macros:
                 msg = ""
                 if p.endswith("expect") or p.endswith("expect_err"):
@@ -96,24 +97,28 @@ def diverging_sites(F, fns):
                 # unwrap/expect inside a foreign macro expansion (e.g. lazy_static, thread_local): census by macro
                 yield dict(kind=p.rsplit("::", 1)[-1], msg="", ctx="macro:" + c.macros[-1], fn=f, file=c.file, line=c.line)
             elif (c.trait in ("std::ops::Index", "std::ops::IndexMut")) and not c.macros:
-                yield dict(kind="index", msg="", ctx=type_head(c.targs[0]) + "[" + type_head(c.targs[1] if len(c.targs) > 1 else "") + "]",
-                           fn=f, file=c.file, line=c.line)
+                # one class for `v[i]` whether the container is a Vec (Index::index call) or a slice/array (a MIR
+                # bounds assertion): the same failure, whichever type a refactoring gives the parameter
+                it = type_head(c.targs[1] if len(c.targs) > 1 else "")
+                yield dict(kind="index", msg="", ctx="[range]" if "Range" in it else "[%s]" % it, fn=f, file=c.file, line=c.line)
             elif STD_PANICKERS.match(p) and not c.macros:
                 yield dict(kind="std:" + p.rsplit("::", 1)[-1], msg="", ctx=type_head(c.targs[0]) if c.targs else "", fn=f, file=c.file, line=c.line)
         for bi, b in enumerate(f.mir["blocks"]):
             t = b["term"]
-            if t["k"] == "Assert" and t["msg"] in ("BoundsCheck", "DivisionByZero", "RemainderByZero") and not t.get("macros"):
+            if t["k"] == "Assert" and t["msg"] == "BoundsCheck" and not t.get("macros"):
+                yield dict(kind="index", msg="", ctx="[usize]", fn=f, file=t.get("file"), line=t.get("line"))
+            elif t["k"] == "Assert" and t["msg"] in ("DivisionByZero", "RemainderByZero") and not t.get("macros"):
                 yield dict(kind="assert:" + t["msg"], msg="", ctx=owner_of(F, f), fn=f, file=t.get("file"), line=t.get("line"))
 
 
 def owner_of(F, f):
-    """impl self type head or module of the enclosing root function (never the function name)"""
+    """source file of the enclosing function, relative to the crate's src directory (never the function or type
+    name: moving a site between a method and a free function of the same file is not a new site)"""
     r = F.fns.get(f.root) if f.root else f
     r = r or f
-    if r.impl_self:
-        return type_head(r.impl_self)
-    parts = r.id.split("::")
-    return "::".join(parts[:-1]) or "<crate>"
+    fl = r.file or ""
+    m = re.search(r"packages/([\w-]+)/src/(.*)$", fl)
+    return "%s:%s" % (m.group(1), m.group(2)) if m else fl
 
 
 def site_key(s):
@@ -588,13 +593,20 @@ def run(cx, rep):
             path = " -> ".join(F.path_to(s["fn"].id, parent)[-3:])
             rep.ob("C04.1", "new/" + key, False,
                    "diverging site (%s) reachable from the entry points via %s is not in the reviewed census; give it a guard the census recognises or return a diagnostic" % (key, path), locs)
-        elif len(sites) > e["count"]:
+            continue
+        if len(sites) > e["count"]:
             rep.ob("C04.1", "grew/" + key, False,
                    "reachable diverging sites of class (%s) grew from %d to %d" % (key, e["count"], len(sites)), locs)
-        elif e["class"].startswith("finding"):
-            rep.ob("C04.1", "finding/" + key, False, "%s (reachable panic with a known witness input)" % e["reason"], locs)
-        else:
-            rep.ob("C04.1", key, True, sample={"key": key, "count": len(sites), "class": e["class"], "sites": locs})
+            continue
+        rep.ob("C04.1", key, True, sample={"key": key, "count": len(sites), "class": e["class"], "sites": locs})
+        # sites with a known witness input are identified inside their class by the panic message
+        for sub in e.get("messages", []):
+            if sub["class"].startswith("finding"):
+                hit = [s for s in sites if s.get("info") == sub["msg"]]
+                if hit:
+                    kind, _, ctx = key.split("|", 2)
+                    rep.ob("C04.1", "finding/%s|%s|%s" % (kind, sub["msg"], ctx), False, "%s (reachable panic with a known witness input)" % sub["reason"],
+                           ", ".join("%s:%s" % (s["file"], s["line"]) for s in hit))
     rep.floor("C04.1", "reachable diverging sites", total, 60)
 
     # the named invariants that census entries of class `invariant` lean on are decided by their own rules;
@@ -670,10 +682,19 @@ def run(cx, rep):
     ordinal = collections.Counter()
     for f, flow, c, tgts, looked in resolve_edges(F, scc_of, reach):
         n_edges += 1
-        pair = "%s->%s" % (strip_generics(f.id), strip_generics(tgts[0]))
-        key = "%s#%d" % (pair, ordinal[pair])
-        ordinal[pair] += 1
         bad, mark = uncut(F, scc_of, marked, f, c, tgts)
+        # key: enclosing named function (closures belong to the function that creates them) -> callee, plus an
+        # ordinal that counts only the un-cut sites of that pair: neither renumbered closures nor added / removed
+        # well-guarded calls rename a recorded finding
+        pair = "%s->%s" % (re.sub(r"(::\{closure#\d+\})+$", "", strip_generics(f.id)), strip_generics(tgts[0]))
+        if bad:
+            key = "%s#%d" % (pair, ordinal[pair])
+            ordinal[pair] += 1
+        else:
+            key = pair + "/cut"
+        if os.environ.get("VERIF_C04_KEYMAP") and bad:
+            old_pair = "%s->%s" % (strip_generics(f.id), strip_generics(tgts[0]))
+            print("KEYMAP\t%s\t%s\t%s:%s" % (old_pair, key, c.file, c.line))
         if bad and value_guarded_builtin(F, f, c):
             rep.ob("C04.3a", key, True, sample={"edge": key, "lookup": looked[1],
                                                "accepted_because": "the call is taken only under `<looked-up name>.is_builtin()`: builtin names carry no user definition, the callee dispatches on the builtin and the type arguments were lowered from sub-syntax before the call"})
